@@ -1905,6 +1905,21 @@ def _carn_compare(call, nA, start_bound, flag, vs, cols):
     return None
 
 
+def _near_breakdown(calls):
+    """some recorded pass has a sub-diagonal entry H[j+1,j] within a factor 1e4 of the absolute breakdown threshold
+    (2.2e-10): whether that pass stops there is decided by rounding, so the model (also binary64, but with its own
+    summation order) may make a different number of steps than the code"""
+    for cl in calls:
+        if cl.get('complex') is True and 'H' not in cl:
+            continue
+        H = np.asarray(cl['H'])
+        for j in range(min(H.shape[0] - 1, H.shape[1])):
+            h = abs(H[j + 1, j])
+            if 2.2e-14 <= h <= 2.2e-6:
+                return True
+    return False
+
+
 def _eig_quality(call, nA):
     """largest residual |H y - theta y| / |y| of the recorded LAPACK eigenpairs"""
     m = call['m']
@@ -1987,6 +2002,8 @@ def _e52_judge(ctx, c, calls, op, res, info, reply):
                 return f'model: {why}; code raised {res["msg"]}'
             if why == 'oracle-residual' and (not info['bound'] <= ARN_MAX_BOUND or max(_eig_quality(cl, nA) for cl in calls) > EIG_RES * nA):
                 return 'skip:oracle'
+            if why == 'oracle-shape' and _near_breakdown(calls):
+                return 'skip:und-breakdown'
             return f'model refused: {why}'
         if raised:
             return f'code raised ValueError({res["msg"]}), model returned a value'
@@ -2041,6 +2058,8 @@ def _e52_judge(ctx, c, calls, op, res, info, reply):
         if reply.startswith('err'):
             if reply[4:] == 'oracle-residual' and (not info['bound'] <= ARN_MAX_BOUND or _eig_quality(calls[0], nA) > EIG_RES * nA):
                 return 'skip:oracle'
+            if reply[4:] == 'oracle-shape' and _near_breakdown(calls):
+                return 'skip:und-breakdown'
             return f'model refused: {reply[4:]}'
         toks = reply.split(' ')
         est, mx, mn, fl, cols = _pfloat(toks[1]), _pfloat(toks[2]), _pfloat(toks[3]), toks[4], _pcmat(toks[5])
